@@ -113,18 +113,22 @@ def run(m: Model, r: Report, tier: str) -> None:
         return out
 
     # counters = names incremented inside the pending loop; limit = what the directly following test compares them with
+    # (the test may directly follow the increment or stand at the head of the loop body: what counts is that no further poll is made without it)
     counters: dict[str, str] = {}
+    poll_nodes = {x.id for x in g.nodes.values() if x.ast is not None and x.kind in ("stmt", "cond") and WHILE in ancestors(x.ast, par) and "self._read(" in ast.unparse(x.ast)
+                  and any(isinstance(y, ast.Await) for y in ast.walk(x.ast))}
     for n in ast.walk(WHILE):
         if isinstance(n, ast.AugAssign) and isinstance(n.op, ast.Add) and isinstance(n.target, ast.Name):
-            for nd in g.nodes_of(n):
-                succ = [b for b, k in g.succ[nd.id] if k == "n"]
-                c = g.nodes[succ[0]] if succ else None
-                if c is not None and c.kind == "cond" and isinstance(c.ast, ast.Compare) and len(c.ast.ops) == 1 \
-                        and isinstance(c.ast.ops[0], (ast.GtE, ast.Gt)) and ast.unparse(c.ast.left) == n.target.id \
-                        and isinstance(c.ast.comparators[0], ast.Name):
-                    counters[n.target.id] = c.ast.comparators[0].id
-                else:
-                    counters.setdefault(n.target.id, "")
+            tests_ = [c for c in g.nodes.values() if c.kind == "cond" and isinstance(c.ast, ast.Compare) and len(c.ast.ops) == 1 and c.ast is not None
+                      and WHILE in ancestors(c.ast, par) and isinstance(c.ast.ops[0], (ast.GtE, ast.Gt)) and ast.unparse(c.ast.left) == n.target.id
+                      and isinstance(c.ast.comparators[0], ast.Name)]
+            lim_names = {c.ast.comparators[0].id for c in tests_}
+            covered = bool(tests_) and len(lim_names) == 1 and bool(poll_nodes) and all(
+                g.must_pass(nd.id, {c.id for c in tests_}, poll_nodes)[0] for nd in g.nodes_of(n))
+            if covered:
+                counters[n.target.id] = lim_names.pop()
+            else:
+                counters.setdefault(n.target.id, "")
     r.check(len(counters) >= 2 and all(counters.values()), "R2", f"{fn.qualname}#progress-counters",
             f"counters incremented in the pending loop and their limit tests: {counters}; expected one for received pendings and one "
             "for silent polls, each followed by `counter >= limit`", loc=fn.loc)
@@ -298,6 +302,18 @@ def run(m: Model, r: Report, tier: str) -> None:
     r.check(all("BrokenPipeError" in ast.unparse(x) or "RuntimeError" in ast.unparse(x) for x in raises_in_while) and
             any("RuntimeError" in ast.unparse(x) for x in raises_in_while), "R2", f"{fn.qualname}#pending-limit-raises",
             "reaching the limit of received pendings must end the request with an error", loc=fn.loc)
+    # a reply that was read is looked at before the pending limit is applied: between `resp = parse_pdu(...)` of a poll and the raise for the limit of received
+    # pendings the loop condition (is this still a responsePending?) is evaluated - otherwise the reply that happens to be number MAX_N_PENDING is dropped
+    # although it may be the final one ("a reply received in time is never dropped")
+    polls_parse = [n for n in g.nodes.values() if n.kind == "stmt" and n.ast is not None and WHILE in ancestors(n.ast, par) and isinstance(n.ast, ast.Assign)
+                   and ast.unparse(n.ast.targets[0]) == RESP and "parse_pdu(" in ast.unparse(n.ast.value)]
+    lim_raises = {n.id for n in g.nodes.values() if n.kind == "raise" and n.ast is not None and WHILE in ancestors(n.ast, par) and "RuntimeError" in ast.unparse(n.ast)}
+    whead = {x.id for x in g.nodes.values() if x.kind == "loop" and x.ast is WHILE}
+    if len(polls_parse) != 1 or not lim_raises or not whead:
+        raise AnalysisError(f"{fn.qualname}: poll parse / pending-limit raise not found")
+    ok_lim, p_lim = g.must_pass(polls_parse[0].id, whead, lim_raises)
+    r.check(ok_lim, "R5", f"{fn.qualname}#final-reply-at-limit", "the limit of received pendings is applied to a reply before it was checked for being final: "
+            + " -> ".join(repr(g.nodes[p]) for p in p_lim[-3:]) + " (119 pendings followed by the final reply end in RuntimeError instead of that reply)", loc=fn.loc)
     # busy branch atoms
     if len(busy) == 1:
         bt = busy[0].test
